@@ -157,6 +157,11 @@ var respFaults = []string{"{{ 1 / zero }}\n", "{{ MISSING_IDENT_SENTINEL }}\n", 
 	"{{ \"ab\".repeat(4611686018427387904) }}\n", "{{ \"abcd\".repeat(9223372036854775807) }}\n", "{{ \"ab\".repeat(2147483648 * 2147483648) }}\n", "{{ \"a\" % \"b\" }}\n", "{{ \"100%\" - \"50%\" }}\n",
 	// the message holds a percent sign
 	"{{ 7 % \"2\" }}\n", "{{ \"a\" % 3 }}\n",
+	// a name that holds nil re-assigned with a value of a type; a built-in that lacks its argument on a receiver that is
+	// empty at run time (what a control directive outside any loop does to the rest of a file is fixed by no statement:
+	// not used as a fault)
+	"{{ nv = rows.slice(9).rand() }}PAGE-SENTINEL-mid{{ nv = \"s\" }}\n", "{{ nv = nil }}PAGE-SENTINEL-mid{{ nv = 1 }}\n", "@each(v in [\"a\".at(4), 7])PAGE-SENTINEL-inner@end\n", "{{ nv = user.Missing9 }}\n",
+	"{{ [].contains() }}\n", "{{ rows.slice(9).contains() }}\n", "{{ \"\".contains() }}\n", "{{ rows.slice(9).join(1, 2) }}\n", "{{ [].slice(\"x\") }}\n", "{{ \"\".truncate() }}\n", "{{ [].append() }}\n",
 	// the page fails in a later pass of a loop, after the loop has produced output
 	"@each(r in rows)PAGE-SENTINEL-inner {{ 6 / (2 - r) }}@end\n"}
 
